@@ -10,6 +10,9 @@ SeqToSet(sq) == {sq[i] : i \in 1 .. Len(sq)}
 StOf(cfg, o) ==
   [ kind |-> cfg.kind, id |-> o.id, start |-> o.start, dur |-> cfg.dur, genesis |-> cfg.genesis, first |-> cfg.first, now |-> o.now,
     \* the epoch from which the current duration counts (the first one; after a re-configuration the one current then)
+    \* every epoch seen so far with the start it was given (ghost)
+    seen |-> LET prev == IF "seen" \in DOMAIN cfg THEN cfg.seen ELSE <<>> IN
+             IF \E i \in DOMAIN prev : prev[i].id = o.id THEN prev ELSE Append(prev, [id |-> o.id, start |-> o.start]),
     anchor |-> IF "anchor" \in DOMAIN cfg THEN cfg.anchor
                ELSE [id |-> IF cfg.kind = "manager" THEN cfg.first ELSE One, start |-> cfg.genesis],
     hooks |-> SeqToSet(o.hooks),
@@ -33,6 +36,11 @@ ByIdChecks(t, byid) ==
           /\ byid[i].id = byid[i].asked
           \* (epochs older than the last re-configuration were created under another duration: not judged)
           /\ (t.anchor.id \preceq byid[i].id => byid[i].start = t.anchor.start ++ ((byid[i].id -- t.anchor.id) ** t.dur))>> >>
+\* beyond the listed properties: the manager does not store past epochs, it derives them from the current one and the
+\* CURRENT duration - after a re-configuration its answers for older epochs no longer say when those epochs started
+PastEpochsX(t, byid) ==
+  << <<"X.epochs.past-epochs-keep-their-start-after-a-reconfiguration",
+        \A i \in DOMAIN byid : \A j \in DOMAIN t.seen : t.seen[j].id = byid[i].id => t.seen[j].start = byid[i].start>> >>
 \* the admin re-configures the clock (C20: "the configured duration"; design rule: the configuration is the specification's
 \* own - the duration in force is the one the last accepted update SET)
 ReconfigNext(s, d) == [s EXCEPT !.dur = d, !.anchor = [id |-> s.id, start |-> s.start]]
@@ -55,7 +63,7 @@ EvChecks(ev, t) ==
           THEN << <<"C16.hooks.admin-only", ev.actor = "owner">> >> \o ObsChecks(RemoveHookNext(st, ev.args.x), t)
           ELSE Unchanged(ev, t)
      [] OTHER -> << <<"TRACE.unknown-event", FALSE>> >>)
-  \o StepChecks(st, t) \o ClockChecks(t) \o ByIdChecks(t, ev.obs.byid)
+  \o StepChecks(st, t) \o ClockChecks(t) \o ByIdChecks(t, ev.obs.byid) \o PastEpochsX(t, ev.obs.byid)
 
 Report(ev, bad) ==
   IF bad = {} THEN TRUE
